@@ -294,8 +294,8 @@ impl HeaderMetadataSpec {
                         success_order,
                         failure_order,
                     )
-                    .map(|x| FromPrimitive::from_u8(x).unwrap())
-                    .map_err(|x| FromPrimitive::from_u8(x).unwrap())
+                    .map(|x| FromPrimitive::from_u8(self.get_bits_from_u8(x)).unwrap())
+                    .map_err(|x| FromPrimitive::from_u8(self.get_bits_from_u8(x)).unwrap())
             }
         } else {
             let addr = self.meta_addr(header);
@@ -308,7 +308,7 @@ impl HeaderMetadataSpec {
                 (old_metadata, new_metadata)
             };
 
-            unsafe {
+            let res = unsafe {
                 T::compare_exchange(
                     addr,
                     old_metadata,
@@ -316,6 +316,11 @@ impl HeaderMetadataSpec {
                     success_order,
                     failure_order,
                 )
+            };
+            // Report only the bits the call is about, as `load` with a mask does.
+            match optional_mask {
+                Some(mask) => res.map(|x| x.bitand(mask)).map_err(|x| x.bitand(mask)),
+                None => res,
             }
         }
     }
